@@ -35,8 +35,8 @@ claims = {
        "is located at its directive (keyword, or in its body's file); a catalog setter that reports a failure makes the handler return an error (ghost counter gFailed). "
        "Catalog setters: duplicate tag/server, repeated JSIGHT/INFO/Title/Version/Description/BaseUrl, and write-once clauses proved heap-wide - a Query, method Description, "
        "Request, request body, request headers, JSON-RPC Params/Result, OperationId that is set is never overwritten, an existing interaction, user type or enum entry is never "
-       "replaced; the generated ordered maps are verified against an abstract view. A failed obligation is replayed on 34 single-fault documents calibrated on the unchanged "
-       "tree (thorough runs them always, as a bounded cross-check). Not decided: undefined type references (inside jsight-schema-core), path-parameter faults, response "
+       "replaced; the generated ordered maps are verified against an abstract view. A failed obligation is replayed on 40 single-fault documents calibrated on the unchanged "
+       "tree (every run executes them, as a bounded cross-check never counted as proved). Not decided: undefined type references (inside jsight-schema-core), path-parameter faults, response "
        "body/headers, the composition over a whole document.",
   note=TB + " addDirectives (the dispatch walk), checkSimilarPaths, PathParameters, the interaction-id constructors and the schema constructors are assumed (trusted) contracts; handler and setter "
        "units marked assumesafe are verified for these postconditions only (panics inside them are assumed away, listed per run).", ref="§0.2, §6 C03"),
@@ -116,7 +116,7 @@ claims = {
        "(inheritPropertiesFromUserType, processAllOf, Unshift, ToUsedUserTypes, StringSet.Add) are verified by SMT against modifies-clauses saying that no ExchangeContent that "
        "existed before is written except the receiver's Children (inherited children are copies). Together: each accessor is a function of the catalog state and leaves it "
        "unchanged up to caches filled once. Not decided: calls that leave the module (encoding/json, jsight-schema-core) are assumed repeatable unless declared stateful; the "
-       "rest of the cache-fill code (astNodeToJsightContent and the rules builder) is assumed to write only what it allocates. Thorough adds a BOUNDED cross-check on the real code "
+       "rest of the cache-fill code (astNodeToJsightContent and the rules builder) is assumed to write only what it allocates. Every run adds a BOUNDED cross-check on the real code "
        "(all call histories of length 3 over built-in documents and /repo/testdata), never counted as proved.",
   note=TB + " Defect found while writing this check and repaired: D17 (regex example changed on every ToJson).",
   ref="§6 C16", category="other"),
@@ -125,7 +125,7 @@ claims = {
        "stores the error result (recover-at-boundary). Structural clauses that are plain Go, proved by SMT: a path item, once stored in paths, is never replaced (closure of fillPaths) and "
        "assignOperation fills the slot of its method, so every HTTP interaction lands in paths[path][method]; same-code responses are all kept (newResponseAnyOf); every "
        "property of a query/path/header schema yields one declared parameter (paramsFromJSchema). A failed obligation is replayed by exporting built-in and testdata documents "
-       "with the real code (thorough always runs this bounded cross-check over 600 documents; it found D23). $ref resolution and response keys are produced inside "
+       "with the real code (every run executes this bounded cross-check over 600 documents; it found D23). $ref resolution and response keys are produced inside "
        "jsight-schema-core/openapi and are not decided.",
   note=TB + " Defects found by this check and repaired: D13 (TYPE @x empty), D23 (additionalProperties decimal/enum/mixed): ToOpenAPIJson panicked.", ref="§0.2, §6 C17", category="other"),
  "C19": dict(
@@ -148,6 +148,16 @@ corpus = {
  "C10": "every PASTE replaced textually by the re-indented body of its MACRO, MACRO blocks deleted: same catalog bytes; undefined and pasted cyclic macros are errors",
  "C19": "every (accepted corpus document, directive kind) pair, about 20 000: banning a kind that occurs gives the not-allowed error on an occurrence, banning one that does not occur gives the same catalog bytes",
 }
+# tree oracles (govc/replay_tree_test.go.tmpl) and the scanner corpus monitor: also bounded, also never counted as proved
+tree = {
+ "C08": "the children of every directive with an implicit context put into ( ) (about 550 rewrites), and blank lines / '#' comments / '###' block comments in front of every directive line, blanks appended to directive lines, two more columns of indentation (about 11 000 rewrites), directive boundaries taken from the scanned tree: same catalog bytes",
+ "C09": "every directive subtree at any depth moved into an INCLUDEd file, two sibling subtrees moved into two files, the children of a directive moved - in a ( ) that begins the included file - into an INCLUDEd file (about 3100 splits, boundaries from the scanned tree): same catalog bytes",
+ "C11": "the children of every directive with an implicit context put into ( ), and the explicit-context-across-an-INCLUDE splits of C09: same catalog bytes",
+ "C12": "the monitor of the first sentence of C12 (plus: no keyword/parameter/body lexeme begins or ends with a foreign blank) on every document of /repo/testdata, every prefix up to 800 bytes, and in thorough every single-byte edit of the documents up to 400 bytes",
+ "C13": "the C13 part of the same monitor (only the language's keywords are accepted, each followed by a separator) over the same corpus",
+}
+for k, v in tree.items():
+    claims[k]["text"] += " BOUNDED as well (reported under bounded_checks_not_counted_as_proved): " + v + "."
 for k, v in corpus.items():
     claims[k]["text"] += (" Every run also executes a BOUNDED corpus oracle on the real code (built-in documents plus about 1100 documents of /repo/testdata, go test -overlay, "
                           "reported under bounded_checks_not_counted_as_proved and never counted as proved): " + v + ".")
